@@ -25,7 +25,10 @@ RULE = ("pairs of quantities of the default POSC database (identical; one quanti
         "given: of the type, of another type, unknown, empty string, a category name in the unit slot; list / tuple / generator "
         "of Scalars; no Scalar at all) over Scalars of simple, derived (unit string naming a table unit or not, one item with an "
         "exponent) and empty quantities; Array.GetValues / Scalar.GetValue to every kind of target unit; GetValues of Arrays "
-        "over lists / tuples of tuples (ragged and empty rows); str(Array) over tuples and numbers.  "
+        "over lists / tuples of tuples (ragged and empty rows); str(Array) over tuples and numbers; two-step histories: "
+        "UnitDatabase.RegisterAdditionalConversionType for subclasses of ndarray (also MaskedArray, a subclass of a subclass), "
+        "list, tuple, float and unrelated classes (1-3 registrations, a class twice), THEN Array op Array over list / tuple / "
+        "ndarray containers and GetValues / CreateCopy(unit=) of every container kind (registry restored afterwards).  "
         "distinct = distinct (operation, operands); non-trivial = the real code returned a result")
 EXHAUSTIVE = {"quick": False, "thorough": False}
 ASSUMPTIONS = [
@@ -39,6 +42,10 @@ ASSUMPTIONS = [
     "modelled (`obtainSimple`) but not generated as keyword arguments",
     "str(Array): the texts of the single elements (`str(v)`, `FormatFloat('%g', v)`) are computed by Python and handed to the "
     "model, which decides the branch (first element a tuple), joins and appends the unit suffix",
+    "registry of additional conversion types: a registered function is modelled by what it does to plain amounts (`std` = "
+    "ConvertNumpyArray, `scaled k` = the number conversion times k); the import-time entries are read from the live registry "
+    "(numpy.ndarray -> std, every other class unrelated to the value containers); no class registered is a base class of float; "
+    "Arrays whose values are instances of a registered ndarray SUBCLASS are not generated (the property speaks of numpy arrays)",
     "value-less list / tuple operands whose division is computed on dummy amounts that cancel to 0 (1 atm = 0 Pa(g)) are kept "
     "out of the generators until the known-finding entry exists (CLASS_PROBE; matcher and replay are in this module)",
 ]
@@ -355,6 +362,140 @@ def _gen_str(ctx, rng, n):
                    elems=[_elem_text(v) for v in _str_values(t)], _t=t)
 
 
+# ---- a database on which additional conversion types have been registered (two-step histories)
+# class name -> (tag, tags of all proper base classes); tags 0 object, 1 float, 2 list, 3 tuple, 4 numpy.ndarray
+REG_CLASSES = {"ndsub": (10, [4, 0]), "listsub": (11, [2, 0]), "tuplesub": (12, [3, 0]), "ndsub2": (13, [10, 4, 0]),
+               "floatsub": (14, [1, 0]), "masked": (15, [4, 0]), "other": (101, [0]), "other2": (102, [0])}
+_REG_PY = {}
+_REG_FN = {}
+
+
+def _reg_class(name):
+    """the Python class of a registry case (created once per process)"""
+    import numpy as np
+
+    if not _REG_PY:
+        _REG_PY["ndsub"] = type("NdSub", (np.ndarray,), {})
+        _REG_PY["ndsub2"] = type("NdSub2", (_REG_PY["ndsub"],), {})
+        _REG_PY["listsub"] = type("ListSub", (list,), {})
+        _REG_PY["tuplesub"] = type("TupleSub", (tuple,), {})
+        _REG_PY["floatsub"] = type("FloatSub", (float,), {})
+        _REG_PY["masked"] = np.ma.MaskedArray
+        _REG_PY["other"] = type("Other", (object,), {})
+        _REG_PY["other2"] = type("Other2", (object,), {})
+    return _REG_PY[name]
+
+
+def _reg_fn(name, k):
+    """the conversion function registered for class `name`: written for another representation of the amounts, on
+    plain amounts it answers the number conversion times k (one function object per (class, k): registering the
+    same function twice is accepted, another one for the same class is refused)"""
+    key = (name, k)
+    if key not in _REG_FN:
+        factor = oc.val(k)
+
+        def fn(db, quantity_type, from_unit, to_unit, value):
+            this = db.GetInfo(quantity_type, from_unit, fix_unknown=True)
+            other = db.GetInfo(quantity_type, to_unit, fix_unknown=True)
+            if isinstance(value, (list, tuple)):
+                return type(value)(other.frombase(this.tobase(v)) * factor for v in value)
+            return other.frombase(this.tobase(value)) * factor
+
+        _REG_FN[key] = fn
+    return _REG_FN[key]
+
+
+class _registered:
+    """run a block on a database on which `regs` have been registered through the public
+    `UnitDatabase.RegisterAdditionalConversionType`; the registry (a class attribute shared by every database of the
+    process) is put back exactly as it was"""
+
+    def __init__(self, regs):
+        self.regs = regs
+
+    def __enter__(self):
+        from barril.units.unit_database import UnitDatabase
+
+        self.saved = list(UnitDatabase._additional_conversions.items())
+        for r in self.regs:
+            try:
+                UnitDatabase.RegisterAdditionalConversionType(_reg_class(r["cls"]), _reg_fn(r["cls"], r["k"]))
+            except AssertionError:
+                pass   # a second function for a registered class is refused; the registry stays as it was
+        return self
+
+    def __exit__(self, *exc):
+        from barril.units.unit_database import UnitDatabase
+
+        d = UnitDatabase._additional_conversions
+        d.clear()
+        d.update(self.saved)
+        return False
+
+
+def _base_registry():
+    """the registry as it is now (after import): numpy.ndarray with ConvertNumpyArray (`std`), then classes
+    unrelated to every value container (FractionValue, ...; what their functions do never matters)"""
+    import numpy as np
+    from barril.units.unit_database import UnitDatabase
+
+    out = []
+    for i, (cls, _fn) in enumerate(UnitDatabase._additional_conversions.items()):
+        if cls is np.ndarray:
+            out.append(dict(cls="4", fn="std"))
+        else:
+            known = [n for n, pc in sorted(_REG_PY.items()) if pc is cls]
+            out.append(dict(cls=str(REG_CLASSES[known[0]][0] if known else 200 + i), fn="scaled", k="1/1"))
+    return out
+
+
+def _enc_regs(regs):
+    return [dict(cls=str(REG_CLASSES[r["cls"]][0]), fn="scaled", k=qstr(oc.exact_of(r["k"]))) for r in regs]
+
+
+_NDC = dict(tag="4", bases=["0"])
+
+
+def _rand_regs(rng):
+    """registrations: mostly an ndarray subclass (the class a plain ndarray must never be served by), also subclasses
+    of list / tuple / float, unrelated classes, several at once, the same class twice"""
+    names = sorted(REG_CLASSES)
+    regs = []
+    for _ in range(rng.choice([1, 1, 1, 2, 2, 3])):
+        name = rng.choice(["ndsub", "ndsub", "ndsub", "masked", "ndsub2"]) if rng.random() < 0.6 else rng.choice(names)
+        regs.append(dict(cls=name, k=oc.enc(rng.choice([2.0, 0.5, -1.0, 3.0, 1.0, 10.0, 0.25]))))
+    return regs
+
+
+def _gen_registry(ctx, rng, npairs, n_gv):
+    base = _base_registry()
+    for q1, q2 in _pairs(ctx, rng, npairs):
+        for f in oc.OPS:
+            for _ in range(3):
+                regs = _rand_regs(rng)
+                k1, k2 = rng.choice([("nd", "nd"), ("nd", "list"), ("list", "nd"), ("tuple", "nd"), ("nd", "tuple"),
+                                     ("list", "list"), ("tuple", "tuple"), ("list", "tuple")])
+                n = rng.choice([0, 1, 2, 3, 3, 5])
+                xs, i1 = _vals(rng, n, f, False)
+                ys, i2 = _vals(rng, n if rng.random() < 0.95 else n + 1, f, True)
+                if n == 0 and f in ("div", "floordiv") and "nd" not in (k1, k2) and _probe_zero(ctx, q1, q2):
+                    continue
+                a, b = oc.array_spec(q1, k1, xs, i1), oc.array_spec(q2, k2, ys, i2)
+                yield dict(op="regbinop", f=f, base=base, regs=_enc_regs(regs), ndc=_NDC, a=oc.model_operand(a),
+                           b=oc.model_operand(b), _t=dict(f=f, a=a, b=b, regs=regs))
+    for i in range(n_gv):
+        c, u, _ = oc.simple_q(ctx, rng)[0]
+        qt = ctx.db.GetCategoryQuantityType(c)
+        r = rng.random()
+        to = u if r < 0.05 else rng.choice(ctx.units[qt]) if r < 0.95 else rng.choice(["no such unit", oc.simple_q(ctx, rng)[0][1]])
+        vs = oc.rand_values(rng, rng.choice([0, 1, 2, 3, 5]))
+        regs = _rand_regs(rng)
+        for kind in oc.KINDS:
+            yield dict(op="reggetvalues", base=base, regs=_enc_regs(regs), ndc=_NDC, c=str(sym(c)), u=str(sym(u)), kind=kind,
+                       vs=[qstr(oc.exact(v)) for v in vs], to=str(sym(to)),
+                       _t=dict(c=c, u=u, kind=kind, xs=[float(v).hex() for v in vs], to=to, regs=regs))
+
+
 def _gen(ctx, salt, npairs, lengths, n_mismatch, n_fs, n_gv):
     rng = ctx.fresh_rng("C10" + salt)
     yield from _gen_binops(ctx, rng, npairs, lengths, n_mismatch)
@@ -364,6 +505,7 @@ def _gen(ctx, salt, npairs, lengths, n_mismatch, n_fs, n_gv):
     yield from _gen_fromscalars2(ctx, rng2, 3 * n_fs)
     yield from _gen_rows(ctx, rng2, n_gv // 2)
     yield from _gen_str(ctx, rng2, n_gv // 2)
+    yield from _gen_registry(ctx, ctx.fresh_rng("C10reg" + salt), max(6, npairs // 3), max(40, n_gv // 4))
 
 
 def cases(ctx):
@@ -396,10 +538,15 @@ def _run_fromscalars(t):
             idx.append(float(a[i]).hex())
         except Exception as e:
             idx.append(dict(err=err_kind(e)))
-    return dict(res=res, index=idx)
+    # the sequence protocol next to indexing: len(a) and iteration
+    try:
+        seq = dict(n=len(a), it=[float(v).hex() for v in a])
+    except Exception as e:
+        seq = dict(err=err_kind(e))
+    return dict(res=res, index=idx, seq=seq)
 
 
-def _run_getvalues(t):
+def _run_getvalues(t, copy=False):
     import numpy as np
     from barril.units import Array
 
@@ -416,7 +563,16 @@ def _run_getvalues(t):
     kind = "nd" if isinstance(r, np.ndarray) else "tuple" if isinstance(r, tuple) else "list" if isinstance(r, list) else "?"
     if not all(math.isfinite(float(v)) for v in r):
         return dict(err="other", detail="nonfinite")
-    return dict(ok=dict(kind=kind, vs=[float(v).hex() for v in r]))
+    out = dict(ok=dict(kind=kind, vs=[float(v).hex() for v in r]))
+    if copy:
+        # Array.CreateCopy(unit=...) converts through the same call (a category may refuse the unit: then nothing to compare)
+        try:
+            cp = a.CreateCopy(unit=t["to"]).GetValues()
+            if all(math.isfinite(float(v)) for v in cp):
+                out["ok"]["copy"] = [float(v).hex() for v in cp]
+        except Exception:
+            pass
+    return out
 
 
 def _run_getvalue(t):
@@ -466,7 +622,12 @@ def _run_fromscalars2(t):
             idx.append(float(a[i]).hex())
         except Exception as e:
             idx.append(dict(err=err_kind(e)))
-    return dict(res=res, index=idx)
+    # the sequence protocol next to indexing: len(a) and iteration
+    try:
+        seq = dict(n=len(a), it=[float(v).hex() for v in a])
+    except Exception as e:
+        seq = dict(err=err_kind(e))
+    return dict(res=res, index=idx, seq=seq)
 
 
 def _rows_array(t):
@@ -521,6 +682,12 @@ def impl(c, ctx):
         return io
     elif c["op"] == "getvaluesrows":
         io = _run_getvaluesrows(t)
+    elif c["op"] in ("regbinop", "reggetvalues"):
+        with _registered(t["regs"]):
+            io = oc.run_binop(t["f"], t["a"], t["b"]) if c["op"] == "regbinop" else _run_getvalues(t, copy=True)
+        oc.count(ctx, "%s after registering %s -> %s" % (
+            c["op"], "+".join(sorted({r["cls"] for r in t["regs"]})), io.get("err", "ok")))
+        return io
     elif c["op"] == "str":
         io = _run_str(t)
     elif c["op"] == "fromscalars":
@@ -536,7 +703,7 @@ def impl(c, ctx):
 
 
 def agree(c, io, mo, ctx):
-    if c["op"] == "binop":
+    if c["op"] in ("binop", "regbinop"):
         return oc.agree_binop(c, io, mo)
     if c["op"] == "str":
         if "err" in io:
@@ -573,6 +740,10 @@ def agree(c, io, mo, ctx):
             return why
         if len(io["index"]) != len(mo["index"]):
             return "index lists differ in length"
+        seq = io.get("seq") or {}
+        if "err" in seq or seq.get("n") != len(io["res"]["ok"]["vs"]) or seq.get("it") != [
+                float(oc.val(v)).hex() for v in io["res"]["ok"]["vs"]]:
+            return "len() / iteration of the Array do not give its values: %s" % (seq,)
         M = qparse(mres["ok"]["M"])
         for i, (a, b) in enumerate(zip(io["index"], mo["index"])):
             if isinstance(a, dict) or isinstance(b, dict):
@@ -587,11 +758,15 @@ def agree(c, io, mo, ctx):
             return "one side fails: impl=%s model=%s" % (io, mo)
         return None if io["err"] == mo["err"] else "error kinds differ: impl=%s model=%s" % (io, mo)
     a, b = io["ok"], mo["ok"]
-    if c["op"] == "getvalues" and a["kind"] != b["kind"]:
+    if c["op"] in ("getvalues", "reggetvalues") and a["kind"] != b["kind"]:
         return "container kinds differ: impl=%s model=%s" % (a["kind"], b["kind"])
     if c["u"] == c["to"]:
         exactly = [qstr(oc.exact_of(x)) for x in a["vs"]] == b["vs"]
         return None if exactly else "same-unit values are not returned unchanged"
+    if a.get("copy") is not None:
+        why = oc.compare_values(a["copy"], b["vs"], qparse(b["M"]), False)
+        if why:
+            return "CreateCopy(unit=...): " + why
     return oc.compare_values(a["vs"], b["vs"], qparse(b["M"]), False)
 
 
@@ -922,8 +1097,49 @@ def _oracle_getvaluesrows(t, ctx):
     return None
 
 
+def _oracle_registry(c, t, ctx):
+    """the property on a database on which somebody has registered additional conversion types: the same demands
+    (elements = Scalar results, the Scalar result's quantity, no dependence on the container kind), judged while the
+    registrations are in place; CreateCopy(unit=...) is the unit conversion too"""
+    import numpy as np
+    from barril.units import Array, Scalar
+
+    with _registered(t["regs"]):
+        fl = _oracle_binop(t, ctx) if c["op"] == "regbinop" else _oracle_getvalues(t, ctx)
+        if fl is None and c["op"] == "reggetvalues":
+            vs = [oc.val(x) for x in t["xs"]]
+            try:
+                want = [Scalar(v, t["u"], t["c"]).GetValue(t["to"]) for v in vs]
+            except Exception:
+                want = None
+            for kind in oc.KINDS if want is not None else ():
+                cont = tuple(vs) if kind == "tuple" else np.array(vs, dtype=np.float64) if kind == "nd" else list(vs)
+                try:
+                    got = [float(v) for v in Array(cont, t["u"], t["c"]).CreateCopy(unit=t["to"]).GetValues()]
+                except Exception:
+                    continue
+                for i, (g, w) in enumerate(zip(got, want)):
+                    if math.isfinite(g) and math.isfinite(w) and abs(g - w) > _tol(g, w, vs[i]):
+                        fl = dict(clause="unit conversion of an Array equals the conversion of the Scalars", kind=kind, index=i,
+                                  form="Array(%s of %r, %r, %r).CreateCopy(unit=%r).GetValues()" % (kind, vs, t["u"], t["c"], t["to"]),
+                                  got=g, want=w)
+                        break
+                if fl:
+                    break
+    if fl:
+        seen, after = {}, []
+        for r in t["regs"]:
+            refused = seen.setdefault(r["cls"], r["k"]) != r["k"]
+            after.append("UnitDatabase.RegisterAdditionalConversionType(<class %s>, <its conversion: the number conversion times %r>)%s"
+                         % (_reg_class(r["cls"]).__name__, oc.val(r["k"]), " (refused: AssertionError, the class has a function)" if refused else ""))
+        fl["after"] = after
+    return fl
+
+
 def oracle(c, ctx):
     t = c["_t"]
+    if c["op"] in ("regbinop", "reggetvalues"):
+        return _oracle_registry(c, t, ctx)
     if c["op"] == "fromscalars2":
         return _oracle_fromscalars2(t, ctx)
     if c["op"] == "getvaluesrows":
@@ -978,4 +1194,5 @@ def replay_finding(entry, ctx):
 
 
 def search(ctx):
+    yield from _gen_registry(ctx, ctx.fresh_rng("C10regsearch"), 12, 60)
     yield from _gen(ctx, "search", 24, (0, 1, 2, 3, 5), 6, 300, 200)
